@@ -677,6 +677,9 @@ func checkWith(goroutinesFor func(i int) int) func(c sim.ChainCase) error {
 						retained = retained[1:]
 					}
 				}
+				if err := sim.ElementsHazard(au); err != nil {
+					return stats.Failf("C09/created-elements-share-memory", "height %d: %v", ch.Height(), err)
+				}
 				client.Follow(au, ch.Tip().Elements.NumLeaves, ch.Store)
 				if err := stillSame(fmt.Sprintf("when a client refreshed its elements with the update for height %d", ch.Height())); err != nil {
 					return err
